@@ -7,11 +7,11 @@ V = os.path.dirname(os.path.dirname(os.path.abspath(__file__)))
 CHECKS = {
  "C01": dict(level="exploration", design="DESIGN.md §4 C01",
    technique="property-based testing: generated positions (proptest-driven byte decoders + libFuzzer) vs independent reference move generator (differential), plus mirror metamorphic relation",
-   text="Generated-input search: ~140k (quick) / millions (thorough) valid positions from playouts, arbitrary placements and constructed motifs; the engine's move multiset and check test must equal an independent perft-validated reference. Exploration is the right level: the domain (~10^44 positions) cannot be enumerated, but an exact executable oracle exists.",
+   text="Generated-input search: ~140k (quick) / millions (thorough) valid positions from playouts, arbitrary placements and constructed motifs; the engine's move multiset and check test must equal an independent perft-validated reference. Exploration is the right level: the domain (~10^44 positions) cannot be enumerated, but an exact executable oracle exists. Plus the ENUMERATED check-geometry grid (336k sparse constructions: every kind of check on every line, every ep pin; 1.09 M positions in which such a check has to be answered).",
    note="Trusted: refchess (validated against published perft totals and breakdowns at every start); positions reach the engine through FEN text."),
  "C02": dict(level="exploration", design="DESIGN.md §4 C02",
    technique="property-based testing: lock-step model-based comparison of successor positions against a reference model over generated move histories",
-   text="Every legal move of generated positions and lock-step playouts up to 300 plies; after every move placement, side, rights, ep target and bitboard consistency are compared with the reference successor.",
+   text="Every legal move of generated positions and lock-step playouts up to 300 plies; after every move placement, side, rights, ep target and bitboard consistency are compared with the reference successor. Plus two enumerated grids: castling-rights bookkeeping (every subset of rights x one further man of every kind and colour on every square, every legal move played both ways) and every legal move of the check-geometry grid.",
    note="Trusted: refchess make(); ep convention as stated in DESIGN.md (exact when a capturer is adjacent)."),
  "C10": dict(level="exploration", design="DESIGN.md §4 C10",
    technique="exhaustive enumeration of ray-occupancy subsets and square pairs against a coordinate ray-walk oracle, plus generated random occupancies",
@@ -40,7 +40,7 @@ CHECKS = {
    note="Deadline expressed in nodes via the SearchTimer hook (at node k the timer's own limit becomes zero; the engine's real deadline test decides). Reference as in C05."),
  "C07": dict(level="fault_enumeration", design="DESIGN.md §4 C07",
    technique="fault-point enumeration/sampling of deadline node counts (stateful: optional earlier searches on the same engine) with an invariant on passive instrumentation counters (observation latency, work after the expiry became observable), incl. constructed explosive positions; plus black-box property testing of the real binary under a real clock judged on CPU time consumed after the budget",
-   text="Node-count deadlines enumerated for small searches and sampled log-uniformly up to 300k (3M thorough) on middlegames and explosive quiescence shapes, on fresh engines and after earlier unlimited searches on the same engine; the first poll after the expiry must come within 4096 nodes, at most 256 nodes may follow, and the search must return (hard cap turns a runaway into a caught panic). Black-box layer: go movetime T / depth 64 movetime T / a clock with T left (T 0..300 ms) on the real binary, optionally after an earlier search in the process: CPU time consumed between go and bestmove must stay below T + 300 ms.",
+   text="Node-count deadlines enumerated for small searches and sampled log-uniformly up to 300k (3M thorough) on middlegames and explosive quiescence shapes, on fresh engines and after earlier unlimited searches on the same engine; the first poll after the expiry must come within 4096 nodes, at most 256 nodes may follow, and the search must return (hard cap turns a runaway into a caught panic). Black-box layer: go movetime T / depth 64 movetime T / a clock with T left (T 0..300 ms) on the real binary, optionally after an earlier search in the process: CPU time consumed between go and bestmove must stay below T + 300 ms. Earlier searches in the process include depth-limited ones that leave a move time or clock of their own unused.",
    note="Node-count formulation via a passive hook (the engine's own deadline test decides). The black-box verdict uses CPU time of the single-threaded process (a lower bound of wall-clock time), never wall-clock time itself."),
  "C11": dict(level="exploration", design="DESIGN.md §4 C11",
    technique="property-based testing: metamorphic relations on the hash (transposing move orders and FEN-vs-play must be equal; single-component flips must differ) and population collision check, under several fresh key draws",
@@ -48,16 +48,16 @@ CHECKS = {
    note="Keys come from thread_rng and cannot be seeded; inequality verdicts carry a 2^-64 coincidence risk; failing pairs are re-checked under 8 fresh draws."),
  "C12": dict(level="exploration", design="DESIGN.md §4 C12",
    technique="property-based testing: metamorphic independence (opponent clock, token order) and bound check on the budget produced by the real go parser (hook)",
-   text="Millions of generated clock five-tuples from a boundary-rich mixture, all 24 token orders, either side to move; the budget handed to the search must not depend on the opponent's values or the order and must fit strictly inside the mover's remaining time.",
+   text="Millions of generated clock five-tuples from a boundary-rich mixture, all 24 token orders, either side to move; the budget handed to the search must not depend on the opponent's values or the order and must fit strictly inside the mover's remaining time. Part 'effective': sequences of real depth-1 searches with clocks on one engine; the limit the search timer was really started with (read back after each search) must fit in the mover's clock and be the same on a twin engine given other clocks for the opponent.",
    note="Hook verif_go_budget records (depth, time limit) just before the search and returns."),
  "C16": dict(level="exploration", design="DESIGN.md §4 C16",
    technique="property-based testing of the real process: generated command scripts over stdin, stdout parsed against a line-by-line transcript grammar (reference model of the protocol), exit status checked",
-   text="Generated scripts of all line kinds incl. unknown/blank/UTF-8 lines, ending in quit (with trailing lines) or end of input (with/without final newline); stdout must match the slot grammar exactly and the process must exit 0.",
+   text="Generated scripts of all line kinds incl. unknown/blank/UTF-8 lines, ending in quit (with trailing lines) or end of input (with/without final newline); stdout must match the slot grammar exactly and the process must exit 0. Unknown lines include lines with bytes that are not valid UTF-8.",
    note="Termination judged with a 5 s allowance on an idle process; a go that never answers is inconclusive (exit 2)."),
 
  "C03": dict(level="exploration", design="DESIGN.md §4 C03",
    technique="stateful (model-based) property testing in-process with node-count budgets as deterministic expiry points, plus black-box script testing of the real process; oracle = reference legal-move set of the position last set",
-   text="Layer A: generated op lists (newgame / position / play / resume the pre-newgame command / search with depth 1..4 and budgets expiring before, inside and between iterations) on one engine, the answer of every search must be a reference-legal move of the current position iff one exists. Layer B: the real binary driven over pipes with depth, movetime and clock-based go commands on both sides of the 5 s reserve; exactly one bestmove line per go, legal, 0000 only when no move exists.",
+   text="Layer A: generated op lists (newgame / position / play / resume the pre-newgame command / search with depth 1..4 and budgets expiring before, inside and between iterations) on one engine, the answer of every search must be a reference-legal move of the current position iff one exists. Layer B: the real binary driven over pipes with depth, movetime and clock-based go commands on both sides of the 5 s reserve; exactly one bestmove line per go, legal, 0000 only when no move exists. Part 'selfplay': games played out on one engine (the answer is played, the other side's go follows; deviations, take-backs, depths varying from move to move; some on engines whose tables are kept full by heavy searches in between), same invariant after every search.",
    note="Layer A observes the Option<Move> from which handle_go_command prints bestmove; node budgets (hook) stand for wall-clock budgets."),
  "C08": dict(level="exploration", design="DESIGN.md §4 C08",
    technique="property-based testing with a validity-predicate oracle: constructed mate-in-one and allows-mate-in-one positions (verified by the reference), engine answer checked against Mates(p) / Allows(p)",
@@ -65,15 +65,15 @@ CHECKS = {
    note="Mates/Allows computed by refchess; fresh Searcher per search; searches over the node watchdog are excluded and counted."),
  "C09": dict(level="exploration", design="DESIGN.md §4 C09",
    technique="property-based testing over generated game histories with controlled repetition multiplicities; oracle = occurrence count in the reference history combined with reference quiescence values (depth-1 value equation), through the real position/go command path",
-   text="Histories built from prefixes, 0..3 shuffle cycles, long reversible excursions and partial cycles (with lost rights, irreversible moves, earlier position commands that must not count, and the final position given again as a bare command whose history is that one position); the engine's depth-1 score after 'position ... / go depth 1' must equal max over moves of (seen twice before ? 0 : real value).",
+   text="Histories built from prefixes, 0..3 shuffle cycles, long reversible excursions and partial cycles (with lost rights, irreversible moves, earlier position commands that must not count, and the final position given again as a bare command whose history is that one position); the engine's depth-1 score after 'position ... / go depth 1' must equal max over moves of (seen twice before ? 0 : real value). Part 'deep': go depth 2..3, every completed iteration must report the plain-minimax value in which any position below the root already seen twice is worth 0. Part 'veteran': the depth-1 oracle on an engine whose tables have grown to hundreds of thousands of entries through heavy searches of other positions.",
    note="Successors whose count depends on the ep convention are excluded; reference quiescence as in C05."),
  "C13": dict(level="exploration", design="DESIGN.md §4 C13",
    technique="differential testing between independent runs of the real process (each with fresh random keys) and metamorphic fresh-equivalence for ucinewgame, over generated depth-limited command scripts",
-   text="Generated scripts with carried-over search state are run in 3 (8 thorough) separate processes and must give identical normalised output, including a few scripts with multi-million-node searches (table-capacity effects); prefix + ucinewgame + suffix must give the same suffix output as a fresh process, with new games that revisit positions of the old one, shuffle games next to the start position and a bare go right after ucinewgame.",
+   text="Generated scripts with carried-over search state are run in 3 (8 thorough) separate processes and must give identical normalised output, including a few scripts with multi-million-node searches (table-capacity effects); prefix + ucinewgame + suffix must give the same suffix output as a fresh process, with new games that revisit positions of the old one, shuffle games next to the start position and a bare go right after ucinewgame. Engine-played games (forced mates, mate scores in the table) as scripts for both oracles.",
    note="Key-set dependence is sampled with R runs per script; only time and nps fields are removed."),
  "C17": dict(level="exploration", design="DESIGN.md §4 C17",
    technique="differential property-based testing of the quiescence move set against the reference (captures, promotions, checks incl. discovered), on generated positions and on every quiescence node recorded inside real searches (hook)",
-   text="Public generate_quiescence_moves compared as a multiset with the reference tactical set on ~60k generated positions incl. discovered-check, ep-check, castling-check and under-promotion-check motifs; every quiescence node visited by real depth-1..2 searches (in-check nodes must list all legal moves); and the nodes lying >= 10 plies below the horizon in depth-1..4 searches of full middlegames and in direct calls of the quiescence search with generated windows (hundreds of nodes >= 32 plies deep per quick run).",
+   text="Public generate_quiescence_moves compared as a multiset with the reference tactical set on ~60k generated positions incl. discovered-check, ep-check, castling-check and under-promotion-check motifs; every quiescence node visited by real depth-1..2 searches (in-check nodes must list all legal moves); and the nodes lying >= 10 plies below the horizon in depth-1..4 searches of full middlegames and in direct calls of the quiescence search with generated windows (hundreds of nodes >= 32 plies deep per quick run). Plus the ENUMERATED check-geometry grid through the public entry point (every direct and discovered check, castling checks on file and back rank, en-passant checks and pins).",
    note="Hook records the list search_until_quiet chose, before ordering, with the node's nesting depth below the horizon."),
 }
 
